@@ -113,6 +113,10 @@ def contexts():
            ('bind', 'x', None, ('AG', ('EF', ('and', X, X)))), ('bind', 'x', None, ('AX', ('and', X, X))), ('bind', 'x', None, ('AG', ('EG', X))), ('bind', 'x', None, ('EX', X)),
            ('exists', 'x', None, ('AG', ('EF', X))), ('forall', 'x', None, ('AX', X)), ('bind', 'x', None, ('AG', ('AG', ('EF', X)))), ('bind', 'x', None, ('not', ('AX', X))),
            ('and', ATTR(), STEADY()), ('iff', ATTR(), ('bind', 'x', None, ('AG', ('EF', ('and', X, ('true',)))))), ('iff', STEADY(), ('bind', 'x', None, ('AX', ('or', X, ('false',)))))]
+    # an unused binder whose body talks about the variable of an ENCLOSING quantifier (not a pattern), closed in four ways
+    for body in (('AG', ('EF', X)), ('AX', X)):
+        nb = ('bind', 'xx', None, body)
+        fs += [('exists', 'x', None, ('EF', nb)), ('forall', 'x', None, ('AX', ('or', nb, X))), ('exists', 'x', None, ('jump', 'x', ('EX', ('not', nb)))), ('bind', 'x', None, ('EX', nb))]
     return fs
 
 def run(chk):
